@@ -157,8 +157,11 @@ CHECKS["C04"] = dict(
     "_unordered, timeout_only_when_waited (a TimeoutError implies a wait of more than `timeout` ticks on one pending tracker), "
     "timeout_branch_guarded, error_jobs_hold_exceptions. Native pool probe (harness/native_pool.py, oracle only): inside a with block, "
     "after a task error / timeout / iterator error / abandoned generator the re-built workers report the same configuration as before "
-    "(initializer, start method, thread limits, idle time-out, temp folder, memmapping) on multiprocessing, loky (F56) and threading.",
-    note="M1 granularity: completion callbacks are atomic and delivered at hook points of the caller (configure, compute_batch_size, sleep, consumer pauses) - exactly the schedules harness/ctl.py executes on the real Parallel on one thread (event-log equality). Interleavings at lock-boundary / backend-call / unlocked-shared-access granularity with any number of concurrent callback threads are covered by PROOF on the second model M1L (lean/JoblibModel/ParallelLock.lean, theorems M1L.*; scope: one call on a fresh object, ordered modes, no timeout) and tied to the code by step-log equality of forced real-thread schedules (instrumented lock, controllable backend, descriptor-instrumented shared attributes; no line numbers). What remains exploration judged by oracles only is finer than a single attribute access (bytecode level: instr_sweep), mid-callback observations of the wait predicate, close during a callback's pull, native threading/multiprocessing runs, and at M1L granularity: item-level conservation and termination for generator_unordered / timeouts - M1LU (lean/JoblibModel/ParallelLockU.lean, theorems M1LU.*) proves for all interleavings delivery in completion-registration order, once per tracker, timeout soundness and error surfacing, the rest is checked by the tie's oracles; completions delivered INSIDE backend.submit are an oracle-only scenario kind (call sequences with surviving callback threads of earlier calls are covered by PROOF on M1L-Seq, theorems M1LSeq.*: stale_steps_are_noops, current_call_refines_M1L, next_call_is_fresh, return_correct_seq, error_surfaces_seq; tied by step-log equality of forced multi-call schedules); termination is proved for the drain schedule (completions, then callbacks, then the caller; quiescent_termination with an explicit bound), not for arbitrary fair schedules. Modelled not verified: backend contract (each batch executed at most once, callback at most once), RLock, islice, Queue/deque, pickling to workers." + " Worker-side traceback capture is covered by native runs only.",
+    "(initializer, start method, thread limits, idle time-out, temp folder, memmapping) on multiprocessing, loky (F56) and threading. "
+    "EXCEPTION TRANSPORT of the pool backends (ExcTransport.lean): transport_preserves_outcome (a raised (class, args) arrives as that "
+    "(class, args) with the remote traceback as cause, a returned list as that list, for every transport satisfying the pickle law), "
+    "raw_pool_exception_is_raised, returned_exception_instance_is_raised_witness, transport_table.",
+    note="M1 granularity: completion callbacks are atomic and delivered at hook points of the caller (configure, compute_batch_size, sleep, consumer pauses) - exactly the schedules harness/ctl.py executes on the real Parallel on one thread (event-log equality). Interleavings at lock-boundary / backend-call / unlocked-shared-access granularity with any number of concurrent callback threads are covered by PROOF on the second model M1L (lean/JoblibModel/ParallelLock.lean, theorems M1L.*; scope: one call on a fresh object, ordered modes, no timeout) and tied to the code by step-log equality of forced real-thread schedules (instrumented lock, controllable backend, descriptor-instrumented shared attributes; no line numbers). What remains exploration judged by oracles only is finer than a single attribute access (bytecode level: instr_sweep), mid-callback observations of the wait predicate, close during a callback's pull, native threading/multiprocessing runs, and at M1L granularity: item-level conservation and termination for generator_unordered / timeouts - M1LU (lean/JoblibModel/ParallelLockU.lean, theorems M1LU.*) proves for all interleavings delivery in completion-registration order, once per tracker, timeout soundness and error surfacing, the rest is checked by the tie's oracles; completions delivered INSIDE backend.submit are an oracle-only scenario kind (call sequences with surviving callback threads of earlier calls are covered by PROOF on M1L-Seq, theorems M1LSeq.*: stale_steps_are_noops, current_call_refines_M1L, next_call_is_fresh, return_correct_seq, error_surfaces_seq; tied by step-log equality of forced multi-call schedules); termination is proved for the drain schedule (completions, then callbacks, then the caller; quiescent_termination with an explicit bound), not for arbitrary fair schedules. Modelled not verified: backend contract (each batch executed at most once, callback at most once), RLock, islice, Queue/deque, pickling to workers." + " Worker-side exception transport of the pool backends is modelled (lean/JoblibModel/ExcTransport.lean; tie = a Python transcription of the model's table compared with the real _TracebackCapturingWrapper / _retrieve_traceback_capturing_wrapped_call, not a driver run); loky's executor-side capture is covered by native runs only.",
     technique="Lean 4 proof (invariants + clean-state re-establishment) + event-log correspondence under a deterministic scheduler",
     ref="6/C04, 13.2",
 )
